@@ -415,6 +415,32 @@ theorem recursive_post (c : Cfg) (fs fs' : FS) (m : Mutation) (hi : FS.Inv fs)
   obtain ⟨i, hi', ha⟩ := hg' p (List.mem_cons_of_mem _ hp)
   exact ⟨i, by simp [follow, hi'], ha.1, ha.2⟩
 
+/-- **applied in order**: when a whole list of mutations succeeds, the last one was applied — as one
+iteration of the loop — to the state its predecessors produced (which satisfies the graph
+invariant), so every per-mutation theorem of this file speaks about the final state for the last
+mutation of any successful prefix. -/
+theorem mutatePaths_last (c : Cfg) (fs fs' : FS) (ms : List Mutation) (m : Mutation) (hi : FS.Inv fs)
+    (h : mutatePaths c fs (ms ++ [m]) = (fs', none)) :
+    ∃ fs1, mutatePaths c fs ms = (fs1, none) ∧ FS.Inv fs1 ∧ mutateOne c fs1 m = (fs', none) := by
+  rw [mutatePaths_append] at h
+  obtain ⟨fs1, h1, h2⟩ := andThen_ok h
+  rw [mutatePaths_cons] at h2
+  obtain ⟨fs2, h3, h4⟩ := andThen_ok h2
+  rw [mutatePaths_nil] at h4
+  cases h4
+  have := inv_mutatePaths c ms fs hi
+  rw [h1] at this
+  exact ⟨fs1, h1, this, h3⟩
+
+/-- the declared attributes of the last mutation hold in the final state of a successful list -/
+theorem mutatePaths_last_attrs (c : Cfg) (fs fs' : FS) (ms : List Mutation) (m : Mutation) (hi : FS.Inv fs)
+    (hk : m.type ∈ [tDirectory, tEmptyFile, tHardlink, tSymlink, tPermissions])
+    (h : mutatePaths c fs (ms ++ [m]) = (fs', none)) :
+    ∃ i, follow c fs' m.path = some i ∧ permBitsOK (fs'.node i) m.perms = true ∧
+      ownerOK (fs'.node i) m.uid m.gid = true := by
+  obtain ⟨fs1, _, hi1, h2⟩ := mutatePaths_last c fs fs' ms m hi h
+  exact mutation_post_attrs c fs1 fs' m hi1 hk h2
+
 /-! ## witnesses of the recorded findings (the full statements fail on the model the driver runs) -/
 
 def wCfg : Cfg := Cfg.impl .tarfs
